@@ -58,7 +58,11 @@ def judge(ext, flags, limit, count, s, fed, flags2, tsame):
     rs = parse_ranges(s)
     if rs is None:
         return "string-not-a-range-list", "rendered %r" % s[:80]
-    missing = [i for i, f in enumerate(flags) if f != "+" and ext[i][1] > 0]
+    cands = [[i for i, f in enumerate(flags) if f == "0" and ext[i][1] > 0]]
+    if "!" in flags:
+        # the statement speaks of valid and missing chunks; a chunk marked failed (rejected, not yet reset) may be left
+        # out (this library) or requested like a missing one - both readings are accepted, everything else is demanded
+        cands.append([i for i, f in enumerate(flags) if f != "+" and ext[i][1] > 0])
     for (a, b) in rs:
         if a > b:
             return "range-inverted", "range %d-%d" % (a, b)
@@ -73,16 +77,19 @@ def judge(ext, flags, limit, count, s, fed, flags2, tsame):
     for a, b in rs:
         covered.update(range(a, b + 1))
     # union must be the extents of a prefix of the missing chunks
-    want = set()
-    k = 0
-    ok = (covered == want)
-    while not ok and k < len(missing):
-        off, ln = ext[missing[k]]
-        want.update(range(off, off + ln))
-        k += 1
+    for missing in cands:
+        want = set()
+        k = 0
         ok = (covered == want)
+        while not ok and k < len(missing):
+            off, ln = ext[missing[k]]
+            want.update(range(off, off + ln))
+            k += 1
+            ok = (covered == want)
+        if ok:
+            break
     if not ok:
-        return "union-is-not-a-prefix-of-missing-extents", "ranges %s, missing chunks %s" % (s[:80], missing[:12])
+        return "union-is-not-a-prefix-of-missing-extents", "ranges %s, missing chunks %s" % (s[:80], cands[0][:12])
     if missing and k == 0:
         return "nothing-requested-though-chunks-missing", "missing %s" % missing[:12]
     if limit < 0 and k != len(missing):
@@ -101,11 +108,25 @@ def judge(ext, flags, limit, count, s, fed, flags2, tsame):
     return None
 
 
+def fail_source(p, f, mark):
+    """a source file (reference writer) that lists exactly the chunks marked '!' - same digest, stored size and size -
+    but holds other bytes: zck_copy_chunks from it rejects them, which is the public way into the 'failed' marking"""
+    chunks = [zckref.Chunk(bytes(len(p.chunks[0].digest)), 0, 0, bytes(len(p.chunks[0].digest)))]
+    body = bytearray()
+    for i, (m, c) in enumerate(zip(mark, p.chunks)):
+        if m == "!" and c.clen > 0:
+            chunks.append(zckref.Chunk(c.digest, c.clen, c.ulen, c.udigest))
+            body += bytes([0x55]) * c.clen
+    h = zckref.Header(p.htype, p.ctype, p.flags, p.comp, chunks, bytes(zckref.HASH_SIZES[p.htype]))
+    return h.build() + bytes(body)
+
+
 def work(arg):
     name, f, cases = arg
     p = zckref.parse(f)
     ext = zckref.extents(p)
-    job = ["file %s" % f.hex()] + ["case mark=%s limit=%d noscan=%d feed=%d" % c for c in cases]
+    job = ["file %s" % f.hex()] + ["case mark=%s limit=%d noscan=%d feed=%d" % c + (" fsrc=%s" % fail_source(p, f, c[0]).hex() if "!" in c[0] else "")
+                                    for c in cases]
     cs = core.drv("ranges", "\n".join(job) + "\n", timeout=3000)
     res = {"n": 0, "multi": 0, "viol": [], "outcomes": set(), "exact": 0}
     for c, (mark, limit, noscan, feed) in zip(cs, cases):
@@ -123,8 +144,10 @@ def work(arg):
         flags = g["flags"]
         if not noscan:
             # only reachable markings are judged; the flow must reproduce the marking we asked for
-            want = "".join("+" if (m == "+" or ext[i][1] == 0) else "0" for i, m in enumerate(mark))
-            if flags != want:
+            want = "".join("+" if (m == "+" or ext[i][1] == 0) else m for i, m in enumerate(mark))
+            if flags != want and "!" in mark:
+                pass  # identical chunks share a digest: rejecting one rejects its twins; the marking that was reached is judged
+            elif flags != want:
                 res["viol"].append((dict(klass, check="C10", predicate="scan-did-not-produce-marking"), "%s: wanted %s got %s" % (name, want[:40], flags[:40]), case))
                 continue
         s = "" if g["str"] in ("-", "NULL") else core.unhex(g["str"]).decode("latin1")
@@ -192,6 +215,15 @@ def run(ctx):
                 cases.append((mark, lim, 0, 1))
         for lim in LIMITS:
             cases.append(("0" * n, lim, 1, 1))
+        # three-valued markings (valid / missing / failed) for the smaller tables
+        nd = n if has_dict else n - 1
+        if nd <= (5 if ctx.tier == "quick" else 7):
+            for bits in itertools.product("+0!", repeat=nd):
+                if "!" not in bits:
+                    continue
+                mark = ("" if has_dict else "+") + "".join(bits)
+                for lim in LIMITS:
+                    cases.append((mark, lim, 0, 1))
         for ch in core.chunks(cases, 1024):
             jobs.append((name, f, ch))
     ctx.bounds = {"tables": len(tabs), "max_chunks": 8 if ctx.tier == "quick" else 10, "limits": LIMITS,
